@@ -60,6 +60,38 @@ def run(ctx):
         if ctx.anchor(n1):
             b = ctx.body(n1)
             ctx.ob(f"{bp.rsplit('::',1)[1]}::lock_amount|takes-from-liquid", bool(b.calls(re.escape(bp) + r"::internal_take$")), "lock_amount calls internal_take for the shortfall", b.loc())
+            # every registration of a lock passes the comparison of the requested amount with the currently locked maximum, and on the
+            # `amount > max` edge the shortfall (amount - max) is taken from the liquid balance before the lock is counted
+            reg = call_blocks(b, r"indexmap::map::IndexMap(<[^>]*>)?::entry$|IndexMap(<[^>]*>)?::insert$")
+            short = bp.rsplit("::", 1)[1]
+            cmpg = []
+            for bb, tru, fal, si in b.call_bool_guards(r"PartialOrd(<[^>]*>)?(>)?::gt$"):
+                c = [a for a in si["atoms"] if a.kind == "call" and a.what.endswith("::gt")]
+                t = b.term(c[0].bb) if c else None
+                if t and origin_names(b, t["args"][0]) == {"param:1"} and any(x.endswith("LockedFungibleResource::amount") for x in origin_names(b, t["args"][1])):
+                    cmpg.append((bb, tru, fal))
+            ok = len(cmpg) == 1 and bool(reg)
+            ctx.ob(f"{short}::lock_amount|compares-with-locked-max", ok, f"{len(cmpg)} test(s) `amount > locked.amount()`, {len(reg)} lock registration site(s)", b.loc())
+            if ok:
+                bb, tru, fal = cmpg[0]
+                good, wit = b.unreachable_without(reg, [(bb, tru), (bb, fal)])
+                ctx.ob(f"{short}::lock_amount|every-lock-passes-the-max-comparison", good,
+                       "a lock is registered only after the requested amount was compared with the locked maximum" if good else
+                       f"a lock can be registered WITHOUT comparing the amount with the locked maximum: {b.fmt_path(wit)} — a larger overlapping proof would not raise the lock",
+                       b.loc(wit[-1]) if wit else b.loc(bb))
+                tk = b.try_guards(re.escape(bp) + r"::internal_take$")
+                pe = [(sb, p) for sb, ps, fs, cbb in tk for p in ps]
+                region = b.reach((tru,), blocked_edges=pe)
+                ctx.ob(f"{short}::lock_amount|shortfall-taken-before-registration", bool(pe) and not (region & set(reg)),
+                       "on the `amount > max` edge the registration is reachable only after internal_take(..)? succeeded", b.loc(tru))
+                for cb, t in b.calls(re.escape(bp) + r"::internal_take$"):
+                    dn = origin_names(b, t["args"][0])
+                    ok2 = any(x.endswith("::checked_sub") for x in dn)
+                    if ok2:
+                        cs = [a for a in b.origins(t["args"][0]) if a.kind == "call" and a.what.endswith("::checked_sub")]
+                        tt = b.term(cs[0].bb)
+                        ok2 = origin_names(b, tt["args"][0]) == {"param:1"} and any(x.endswith("LockedFungibleResource::amount") for x in origin_names(b, tt["args"][1]))
+                    ctx.ob(f"{short}::lock_amount|shortfall-is-amount-minus-max", ok2, f"internal_take operand originates from {sorted(x.split('::')[-1] for x in dn)}", b.loc(cb))
         n2 = bp + "::unlock_amount"
         if ctx.anchor(n2):
             b = ctx.body(n2)
